@@ -213,6 +213,36 @@ def run_gate(spec):
                     f"ModelNotEnoughSubunitsException, got {outcome}" + (f": {info['msg']} at {info['where']}" if info else ""),
                 witness=dict(exc=info)))
         out["sigs"].append(["gate-nothing", estimator, name, outcome])
+    # several states, one of them a single fully reported unit (a layout in which some group holds exactly one unit of
+    # whatever subset the estimator carves out of the reporting units); well above the minimum => must complete
+    for pos in ("first", "last"):
+        for mseed in (None, 1, 2, 3):
+            el_s, feed_s, call_s, _ = clean_case(spec, estimator, max(nmin, 1) + 30, alphas, salt=80)
+            row = el_s.pre.iloc[[0]].copy()
+            st2, cty2 = gen.STATES[1], "11001"
+            fips2 = (f"{row['district'].iloc[0]}_{cty2}_001" if el_s.district else f"{cty2}_001")
+            row["postal_code"], row["county_fips"], row["geographic_unit_fips"] = st2, cty2, fips2
+            el_s.pre = pd.concat([row, el_s.pre] if pos == "first" else [el_s.pre, row]).reset_index(drop=True)
+            el_s.config[el_s.election_id][0]["states"] = sorted(set(el_s.config[el_s.election_id][0]["states"]) | {st2})
+            frow = feed_s.iloc[[0]].copy()
+            frow["postal_code"], frow["geographic_unit_fips"], frow["percent_expected_vote"] = st2, fips2, 100.0
+            for c_ in ("turnout", "dem", "gop"):
+                frow[f"results_{c_}"] = int(row[f"baseline_{c_}"].iloc[0])
+            feed_s = pd.concat([frow, feed_s] if pos == "first" else [feed_s, frow]).reset_index(drop=True)
+            if mseed is not None:
+                call_s["model_parameters"]["seed"] = mseed
+            with harness.patched() as p:
+                harness.fast_boot_sigma(p, 100)
+                _, exc_s = harness.run_estimates(el_s, feed_s, call_s)
+            out["counters"]["gate_single_unit_state_runs"] = out["counters"].get("gate_single_unit_state_runs", 0) + 1
+            if exc_s is not None:
+                info = harness.exc_info(exc_s)
+                out["violations"].append(dict(
+                    key=f"C14/gate/{estimator}/enough-units-but-{info['type']}/single-unit-state",
+                    msg=f"{estimator} alphas={alphas}, {max(nmin, 1) + 31} reporting units (minimum {nmin}), a second state "
+                        f"with one fully reported unit listed {pos}, seed {mseed}: {info['type']}: {info['msg']} at "
+                        f"{info['where']}", witness=dict(exc=info)))
+            out["sigs"].append(["gate-single-unit-state", estimator, pos, "ok" if exc_s is None else type(exc_s).__name__])
     out["nontrivial"] = True
     if spec["i"] % 9 == 0:
         out["sample"] = dict(part="gate", estimator=estimator, alphas=alphas, minimum=nmin, judged=out["sigs"])
